@@ -219,16 +219,14 @@ pub fn jacobi_eigenvalue<T: DualNum<F> + Copy, F: Float>(
                     if a[(p, q)].re().is_zero() && h.re().is_zero() {
                         continue;
                     }
-                    let term = h.abs() + gapq;
 
-                    let t = if extra_sweeps == 0 && term == h.abs() {
-                        a[(p, q)] / h
-                    } else {
-                        // t = sign(theta) / (|theta| + sqrt(theta^2 + 1)) with theta = h / (2 a), written
-                        // without the division by a (singular in the derivative parts for small a)
-                        let r = (h * h + a[(p, q)] * a[(p, q)] * F::from(4.0).unwrap()).sqrt();
-                        a[(p, q)] * F::from(2.0).unwrap() / if h.is_negative() { h - r } else { h + r }
-                    };
+                    // t = sign(theta) / (|theta| + sqrt(theta^2 + 1)) with theta = h / (2 a), written
+                    // without the division by a (singular in the derivative parts for small a). No
+                    // small-angle shortcut t = a / h: `==` only compares real parts for some dual
+                    // types, and the neglected a^3 / h^3 is a third-order derivative part.
+                    let r = (h * h + a[(p, q)] * a[(p, q)] * F::from(4.0).unwrap()).sqrt();
+                    let t = a[(p, q)] * F::from(2.0).unwrap()
+                        / if h.is_negative() { h - r } else { h + r };
 
                     let c = (t * t + F::one()).sqrt().recip();
                     let s = t * c;
